@@ -114,6 +114,31 @@ func runC16(c core.Case) core.Result {
 		if r.Intn(2) == 0 {
 			lv.SetWatermark(uint64(1 + r.Intn(20)))
 		}
+		// tables in which some user keys appear only as deletion markers: a tombstone is an entry
+		// like any other and its key must be in the filter (also after recovery rebuilt it)
+		if r.Intn(3) > 0 {
+			var top uint64
+			for _, f := range ls.Flushes {
+				for _, e := range f {
+					top = max(top, e.Ts)
+				}
+			}
+			var tf []vEntry
+			for i, u := range ls.Users {
+				if i%2 == 0 || r.Intn(3) == 0 {
+					tf = append(tf, vEntry{User: u, Ts: top + 1 + uint64(i), Tomb: true})
+				}
+			}
+			// keys that were only ever deleted
+			for i := 0; i < 1+r.Intn(3); i++ {
+				tf = append(tf, vEntry{User: fmt.Sprintf("ghost%d", i), Ts: top + 20 + uint64(i), Tomb: true})
+			}
+			if len(ls.Users) > 1 && r.Intn(2) == 0 {
+				tf = append(tf, vEntry{User: ls.Users[1], Ts: top + 50, Val: "live"})
+			}
+			sortEntries(tf)
+			ls.Flushes = append(ls.Flushes, tf)
+		}
 		for _, f := range ls.Flushes {
 			if err := lv.Flush(toEntries(f)); err != nil {
 				res.Violate("C16", "C16/flush-error", "%v", err)
@@ -125,6 +150,9 @@ func runC16(c core.Case) core.Result {
 				check(lv, "after-compaction")
 			}
 		}
+		rv0, _ := lv.Recover()
+		check(rv0, "after-recovery")
+		rv0.Close()
 		lv.CompactL0()
 		check(lv, "after-compaction")
 		rv, _ := lv.Recover()
